@@ -1,7 +1,7 @@
 (** C12 — errors are classified and located truthfully (partial: the rendered message and the
     classification of search errors are decided by correspondence).
     Statements only. *)
-From JP Require Import Base F64 Value Sig Functions Interp Lexer Parser Wire Proofs.CallProof Proofs.ErrProof Proofs.InterpFacts Proofs.ParseErrProof Proofs.SearchErrProof Render Proofs.RenderProof.
+From JP Require Import Base F64 Value Sig Functions Interp Lexer Parser Wire Proofs.CallProof Proofs.ErrProof Proofs.InterpFacts Proofs.ParseErrProof Proofs.SearchErrProof Render Proofs.RenderProof Proofs.PosProof.
 
 (** Every failure of compile is a parse error: the lexer (incl. the embedded JSON reader) and the parser only ever build parse errors. *)
 Theorem C12_compile_errors_are_parse_errors : forall s e, parse s = Err e -> exists p, e = EParse p.
@@ -21,6 +21,26 @@ Print Assumptions C12_search_errors_are_runtime_errors.
 Theorem C12_line_col : forall pre post, line_col (pre ++ post) (byte_len pre) = (count_nl pre, last_line pre 0).
 Proof. exact line_col_spec. Qed.
 Print Assumptions C12_line_col.
+
+(** The offset of every parse error — lexer or parser, any string — lies on a
+    character boundary of the expression: it is the byte length of a prefix
+    (the lexer's positions are prefix lengths; the parser reports only the
+    position of a token of its input, or the position it started from). *)
+Theorem C12_parse_error_offset_on_character_boundary : forall s p, parse s = Err (EParse p) ->
+  exists pre suf, s = pre ++ suf /\ p = byte_len pre.
+Proof. exact compile_error_offset_on_boundary. Qed.
+Print Assumptions C12_parse_error_offset_on_character_boundary.
+
+Theorem C12_parse_error_offset_within_the_expression : forall s p, parse s = Err (EParse p) -> 0 <= p <= byte_len s.
+Proof. exact compile_error_offset_within. Qed.
+Print Assumptions C12_parse_error_offset_within_the_expression.
+
+(** ... hence the line and column reported with it are the number of newlines
+    before the offset and the number of characters since the last of them. *)
+Theorem C12_parse_error_coordinates : forall s p, parse s = Err (EParse p) ->
+  exists pre suf, s = pre ++ suf /\ p = byte_len pre /\ line_col s p = (count_nl pre, last_line pre 0).
+Proof. exact compile_error_coordinates. Qed.
+Print Assumptions C12_parse_error_coordinates.
 
 (** Arity and argument-type errors carry the context offset of the call ... *)
 Theorem C12_validate_error_offset : forall sg args off e, validate sg args off = Err e -> exists k, e = ERuntime k off.
